@@ -421,6 +421,10 @@ def run(ctx):
                       + ("/cond" if r.get("cond") else "/nocond") + ("/sane" if r.get("is_sane") else "/insane"))
             ok, detail = SP._judge(r) if hasattr(SP, "_judge") else SP.oracle_spend(w)
             ctx.oracle("spend", ok, detail, witness={"oracle": "spend", "witness": w}, nontrivial=bool(r.get("produced")))
+    ctx.note("T3/T4 are partial: covered_constructors = 0, 1, pk_k, c:, v:, a:, and_v, and_b, or_b, or_i "
+             "(Props.C15.type_soundness_partial / satisfaction_accepted_partial); not covered: s: n: d: j: pk_h older "
+             "after sha256 hash256 ripemd160 hash160 multi multi_a or_c or_d andor thresh, the satisfier's choice and "
+             "the static bounds (those are checked on the real engine by the `spend` oracle only)")
     ctx.note(f"spend oracle: {produced} satisfactions produced and run through the real engine (p2wsh and tapscript)")
     for n in nodes:
         w = {"context": n.context, "tokens": " ".join(tokens(n))}
